@@ -10,6 +10,7 @@
  *      F_POSLV(s)                              the lvalue(s) a position change may assign
  *      F_INV(s) F_FRAME(s) F_PRE_E(s) F_PRE_U(s)
  *  All spec arithmetic is done in 128 bits so the specification itself cannot wrap.
+ *  Bytes are specified for an arbitrary relative index gk AND for an arbitrary absolute source offset g_soff (ghosts).
  */
 #ifndef OP2_KR_H
 #define OP2_KR_H
@@ -31,6 +32,7 @@
   __CPROVER_ensures(op2_exc == (KR_FITS_OLD(F, s, size) ? 0 : 1)) \
   __CPROVER_ensures(F##_POS(s) == F##_POS_OLD(s) + (op2_exc ? 0 : size)) \
   __CPROVER_ensures((!op2_exc && gk < size) ==> ((const char *)buffer)[gk] == F##_BUF(s)[F##_POS_OLD(s) + gk]) \
+  __CPROVER_ensures((!op2_exc && g_soff >= F##_POS_OLD(s) && g_soff - F##_POS_OLD(s) < size) ==> ((const char *)buffer)[g_soff - F##_POS_OLD(s)] == F##_BUF(s)[g_soff]) \
   __CPROVER_ensures(F##_INV(s) && F##_FRAME(s))
 
 /* ReadPartial(buf, n): never throws, delivers m = min(n, len - pos) */
@@ -41,6 +43,7 @@
   __CPROVER_ensures(__CPROVER_return_value == (KR_FITS_OLD(F, s, size) ? size : F##_LEN_OLD(s) - F##_POS_OLD(s))) \
   __CPROVER_ensures(F##_POS(s) == F##_POS_OLD(s) + __CPROVER_return_value) \
   __CPROVER_ensures(gk < __CPROVER_return_value ==> ((const char *)buffer)[gk] == F##_BUF(s)[F##_POS_OLD(s) + gk]) \
+  __CPROVER_ensures((g_soff >= F##_POS_OLD(s) && g_soff - F##_POS_OLD(s) < __CPROVER_return_value) ==> ((const char *)buffer)[g_soff - F##_POS_OLD(s)] == F##_BUF(s)[g_soff]) \
   __CPROVER_ensures(F##_INV(s) && F##_FRAME(s) && op2_exc == 0)
 
 #define KR_LENGTH(m, F, s) \
